@@ -68,7 +68,13 @@ impl ToTokens for ValuePopulator<'_> {
         let ForwardedField { with, .. } = self.0;
         let ident = local(self.0);
         let initializer_expr = match with {
-            Some(with) => quote_spanned!(with.span()=> __errors.handle(#with(__fwd_attrs))),
+            Some(with) => {
+                // The locals are hygienic: they keep the derive's own span, whatever syntax
+                // context (a `macro_rules!` argument, say) the `with` path comes from.
+                let errors = quote!(__errors);
+                let fwd_attrs = quote!(__fwd_attrs);
+                quote_spanned!(with.span()=> #errors.handle(#with(#fwd_attrs)))
+            }
             None => quote!(::darling::export::Some(__fwd_attrs)),
         };
         tokens.append_all(quote!(#ident = #initializer_expr;));
